@@ -315,7 +315,7 @@ def check_lane_semantics(rule, kind, root=None):
         elif bad[0] == "value":
             rule.bad("a64|%s|%s|sem" % (kind, name), "aarch64 %s %s: %s" % (kind, name, bad[1]), "%s:%d" % (p, b.fn["ln"]))
         else:
-            rule.skip("aarch64 %s %s" % (kind, name), bad[1])
+            rule.skip("aarch64 %s %s" % (kind, name), bad[1], count=True)
     # immediate forms written out by hand (the trait's defaults go through load_imm + the register form)
     for name, op, swap_neg in (("build_mul_imm", "mul", True), ("build_sub_reg_imm", "sub", False)):
         b = builders.get(name)
@@ -471,7 +471,7 @@ def check_domain_guards(rule, root=None):
             assign["T:%s" % inputs[1]] = list(R)
         res = _path_conditions(X.flat_ins(b), assign)
         if not res or not all(r_[2] for r_ in res):
-            rule.skip("aarch64 interval %s" % name, "guard idiom outside the modelled subset")
+            rule.skip("aarch64 interval %s" % name, "guard idiom outside the modelled subset", count=True)
             continue
         probs = []
         dom = list(L) if which == 0 else list(R)
@@ -739,7 +739,7 @@ def check_mask_logic(rule, kind, root=None):
         elif verdict[0] == "bad":
             rule.bad("a64|%s|%s|mask" % (kind, name), "aarch64 %s %s: %s" % (kind, name, verdict[1]), "%s:%d" % (p, b.fn["ln"]))
         else:
-            rule.skip("aarch64 %s %s" % (kind, name), verdict[1])
+            rule.skip("aarch64 %s %s" % (kind, name), verdict[1], count=True)
 
 
 
@@ -862,7 +862,7 @@ def check_interval_piecewise(rule, root=None):
         elif bad[0] == "bad":
             rule.bad("a64|interval|%s|piecewise" % name, "aarch64 interval %s: %s" % (name, bad[1]), "%s:%d" % (p, b.fn["ln"]))
         else:
-            rule.skip("aarch64 interval %s" % name, bad[1])
+            rule.skip("aarch64 interval %s" % name, bad[1], count=True)
     # the undecided paths of the choice clauses
     for name, want in (("build_min", lambda a, r: [sp.Min(a[0], r[0]), sp.Min(a[1], r[1])]), ("build_max", lambda a, r: [sp.Max(a[0], r[0]), sp.Max(a[1], r[1])]),
                        ("build_and", lambda a, r: [sp.Min(r[0], 0), sp.Max(r[1], 0)]), ("build_or", lambda a, r: [sp.Min(a[0], r[0]), sp.Max(a[1], r[1])])):
@@ -925,7 +925,7 @@ def check_interval_piecewise(rule, root=None):
         elif verdict[0] == "bad":
             rule.bad("a64|interval|%s|both" % name, "aarch64 interval %s: %s" % (name, verdict[1]), "%s:%d" % (p, b.fn["ln"]))
         else:
-            rule.skip("aarch64 interval %s" % name, verdict[1])
+            rule.skip("aarch64 interval %s" % name, verdict[1], count=True)
 
 
 def check_grad_piecewise(rule, root=None):
@@ -1002,4 +1002,4 @@ def check_grad_piecewise(rule, root=None):
         elif verdict[0] == "bad":
             rule.bad("a64|grad_slice|%s|piecewise" % name, "aarch64 grad_slice %s: %s" % (name, verdict[1]), "%s:%d" % (p, b.fn["ln"]))
         else:
-            rule.skip("aarch64 grad_slice %s" % name, verdict[1])
+            rule.skip("aarch64 grad_slice %s" % name, verdict[1], count=True)
